@@ -39,6 +39,7 @@ struct Opts {
     selfty: Option<String>, // replace `Self` by this type in signature/body (for items moved out of their impl)
     nofmt: bool,            // R5 off
     unwrap_default: bool,
+    anchors: Vec<String>,   // callee names after whose enclosing statement an `after_call NAME K` anchor is emitted
     r3calls: Vec<(String, usize)>, // callee -> number of generics R3 added to it (turbofish call sites get that many `_`)
 }
 
@@ -67,6 +68,7 @@ fn parse_opts(s: &str) -> Opts {
             "pure_exit" => o.pure_exit = true,
             "selfty" => o.selfty = Some(v.to_string()),
             "nofmt" => o.nofmt = true,
+            "anchors" => o.anchors = list(),
             "r3calls" => o.r3calls = list().iter().filter_map(|x| x.split_once(':').map(|(a, b)| (a.to_string(), b.parse().unwrap_or(1)))).collect(),
             _ => { eprintln!("xt: unknown option {k}"); std::process::exit(3); }
         }
@@ -831,6 +833,108 @@ impl VisitMut for IdentRename {
         m.tokens = go(m.tokens.clone(), &from, &to);
     }
 }
+// R24: `crate::a::b::Item` paths lose their module prefix (everything lives in one generated file);
+// `crate::Result` (libcnb's alias) becomes `CrateResult` so it cannot be confused with std's Result
+struct CratePaths { n: usize }
+impl VisitMut for CratePaths {
+    fn visit_path_mut(&mut self, p: &mut syn::Path) {
+        if p.leading_colon.is_none() && p.segments.len() >= 2 && (p.segments[0].ident == "crate" || p.segments[0].ident == "super") {
+            let mut segs: Vec<syn::PathSegment> = p.segments.iter().cloned().collect();
+            segs.remove(0);
+            // drop module segments (lower-case, not the last one)
+            while segs.len() > 1 && segs[0].ident.to_string().chars().next().map(|c| c.is_lowercase()).unwrap_or(false) { segs.remove(0); }
+            if segs.len() == 1 && segs[0].ident == "Result" { segs[0].ident = format_ident!("CrateResult"); }
+            let mut np = syn::punctuated::Punctuated::new();
+            for sg in segs { np.push(sg); }
+            p.segments = np;
+            self.n += 1;
+        }
+        visit_mut::visit_path_mut(self, p);
+    }
+}
+// after_call anchors: after the statement (or block tail) that contains the K-th call of a listed function
+struct CallFinder<'a> { names: &'a [String], found: Vec<String> }
+impl<'a> syn::visit::Visit<'a> for CallFinder<'a> {
+    fn visit_expr_call(&mut self, c: &'a syn::ExprCall) {
+        if let Some(n) = path_last(&c.func) { if self.names.contains(&n) { self.found.push(n); } }
+        syn::visit::visit_expr_call(self, c);
+    }
+    fn visit_expr_method_call(&mut self, c: &'a syn::ExprMethodCall) {
+        let n = c.method.to_string();
+        if self.names.contains(&n) { self.found.push(n); }
+        syn::visit::visit_expr_method_call(self, c);
+    }
+    fn visit_block(&mut self, _b: &'a syn::Block) { /* calls inside nested blocks get their own anchors */ }
+    fn visit_expr_closure(&mut self, _c: &'a syn::ExprClosure) {}
+    fn visit_arm(&mut self, a: &'a syn::Arm) {
+        // arm bodies that are blocks are handled as blocks; a bare expression arm body is handled by ArmWrap first
+        if let Some((_, g)) = &a.guard { self.visit_expr(g); }
+        if !matches!(*a.body, Expr::Block(_)) { self.visit_expr(&a.body); }
+    }
+}
+struct Anchors { names: Vec<String>, counts: BTreeMap<String, usize>, tmp: usize }
+impl Anchors {
+    fn calls_in_stmt(&self, st: &Stmt) -> Vec<String> {
+        use syn::visit::Visit;
+        let mut cf = CallFinder { names: &self.names, found: vec![] };
+        match st {
+            Stmt::Local(l) => { if let Some(init) = &l.init { cf.visit_expr(&init.expr); } }
+            Stmt::Expr(e, _) => cf.visit_expr(e),
+            _ => {}
+        }
+        cf.found
+    }
+}
+struct ArmWrap { n: usize }
+impl VisitMut for ArmWrap {
+    fn visit_arm_mut(&mut self, a: &mut syn::Arm) {
+        // give every arm a block body so that anchors have a place to go; `arm N` anchor at its start (pre-order)
+        if !matches!(*a.body, Expr::Block(_)) {
+            let b = a.body.clone();
+            a.body = Box::new(parse_quote!({ #b }));
+            a.comma = None;
+        }
+        let k = self.n; self.n += 1;
+        if let Expr::Block(eb) = &mut *a.body {
+            let m = format_ident!("__verif_arm_{}", k);
+            eb.block.stmts.insert(0, parse_quote!(#m!();));
+        }
+        visit_mut::visit_arm_mut(self, a);
+    }
+}
+impl VisitMut for Anchors {
+    fn visit_block_mut(&mut self, b: &mut syn::Block) {
+        let n = b.stmts.len();
+        let mut out: Vec<Stmt> = Vec::new();
+        for (i, mut st) in b.stmts.drain(..).enumerate() {
+            // direct calls of this statement first (source order), nested blocks afterwards
+            let calls = self.calls_in_stmt(&st);
+            let mut markers: Vec<Stmt> = Vec::new();
+            for c in calls {
+                let k = { let e = self.counts.entry(c.clone()).or_insert(0); let k = *e; *e += 1; k };
+                let m = format_ident!("__verif_after_call_{}_{}", c, k);
+                markers.push(parse_quote!(#m!();));
+            }
+            self.visit_stmt_mut(&mut st);
+            let is_tail = i + 1 == n && matches!(st, Stmt::Expr(_, None));
+            if is_tail && !markers.is_empty() {
+                if let Stmt::Expr(e, None) = st {
+                    let t = format_ident!("__t{}", self.tmp); self.tmp += 1;
+                    out.push(parse_quote!(let #t = #e;));
+                    // the driver substitutes `__tail` in the section text by the temporary's name
+                    let tm = format_ident!("__verif_tailname_{}", t);
+                    out.push(parse_quote!(#tm!();));
+                    out.extend(markers);
+                    out.push(Stmt::Expr(parse_quote!(#t), None));
+                }
+            } else {
+                out.push(st);
+                out.extend(markers);
+            }
+        }
+        b.stmts = out;
+    }
+}
 // R21: `mut self` receiver -> `self` + `let mut __self = self;` with `self` renamed in the body
 struct SelfRename;
 impl VisitMut for SelfRename {
@@ -873,6 +977,12 @@ fn emit_fn(key: &str, file: &str, mut sig: syn::Signature, mut block: syn::Block
         let mut sr = SelfRepl { ty };
         sr.visit_signature_mut(&mut sig);
         sr.visit_block_mut(&mut block);
+    }
+    {
+        let mut cp = CratePaths { n: 0 };
+        cp.visit_signature_mut(&mut sig);
+        cp.visit_block_mut(&mut block);
+        for _ in 0..cp.n { rw.bump("R24"); }
     }
     if let Some(FnArg::Receiver(r)) = sig.inputs.first_mut() {
         if r.reference.is_none() && r.mutability.is_some() {
@@ -929,6 +1039,11 @@ fn emit_fn(key: &str, file: &str, mut sig: syn::Signature, mut block: syn::Block
                 rw.bump("R23");
             }
         }
+    }
+    if !o.anchors.is_empty() {
+        ArmWrap { n: 0 }.visit_block_mut(&mut block);
+        let mut an = Anchors { names: o.anchors.clone(), counts: BTreeMap::new(), tmp: 0 };
+        an.visit_block_mut(&mut block);
     }
     rw.visit_block_mut(&mut block);
     // anchors after every top-level statement (not after the tail expression)
@@ -1048,6 +1163,7 @@ fn emit_item(key: &str, file: &str, mut it: Item, _o: &Opts) {
         _ => {}
     }
     sd.visit_item_mut(&mut it);
+    { let mut cp = CratePaths { n: 0 }; cp.visit_item_mut(&mut it); }
     if let Item::Const(c) = &it {
         // exec const with a contract slot:  pub exec const N: T <contract> { EXPR }
         let (n, t, e) = (&c.ident, &c.ty, &c.expr);
